@@ -294,6 +294,10 @@ theorem sheet_no_internal (env : Env) (sh : Sheets) (rows : List TRow)
   unfold sheet
   exact noInt_bind _ _ (rowLoop_no_internal env sh rows {} h) (fun _ _ => rejectIf_noInt _ _)
 
+/-- the tables the driver's environment reads, as the current source has them (re-checked on every run) -/
+theorem ext_table_pinned : Pyxv.Gen.externalInstanceExtensions = [".csv", ".geojson", ".xml"] := by decide
+theorem select_one_external_pinned : Pyxv.Gen.c18SelectOneExternal = "select one external" := by decide
+
 /-! ### Non-vacuity and exactness of the guard
 
 A sheet on which the guard holds (and the loop accepts it); and, for every conjunct of the guard, a row on
